@@ -37,7 +37,7 @@ NodeBits(nd, k) ==
 RECURSIVE ListBits(_, _)
 ListBits(lst, k) == IF k > Len(lst) THEN <<>> ELSE NodeBits(lst[k], k) \o ListBits(lst, k + 1)
 \* a node list exactly as given (canonical or not)
-Serialize(lst) == NatBits(Len(lst)) \o ListBits(lst, 1)
+SerializeList(lst) == NatBits(Len(lst)) \o ListBits(lst, 1)
 
 (* ------------------------------ reading a node list ------------------------------ *)
 \* read_natural at bit position p (0-based count of consumed bits); bound as in the code (usize / u32 arithmetic)
@@ -220,8 +220,8 @@ EncList(d, labs) ==
                  x == IF d[o][1] = "word" THEN d[o][5] ELSE IF d[o][1] = "leaf" THEN d[o][6]
                       ELSE IF d[o][1] = "fail" THEN d[o][4] ELSE <<>>
              IN <<op, IF it[3] = NONE THEN 0 ELSE it[3] + 1, IF it[4] = NONE THEN 0 ELSE it[4] + 1, x>>]
-EncodeRedeemBits(d, t, w) == Pad8(Serialize(EncList(d, IdLabels(d, t, w, FALSE, Len(d)))))
-EncodeCommitBits(d, t) == Pad8(Serialize(EncList(d, IdLabels(d, t, [i \in 1..Len(d) |-> <<"u">>], TRUE, Len(d)))))
+EncodeRedeemBits(d, t, w) == Pad8(SerializeList(EncList(d, IdLabels(d, t, w, FALSE, Len(d)))))
+EncodeCommitBits(d, t) == Pad8(SerializeList(EncList(d, IdLabels(d, t, [i \in 1..Len(d) |-> <<"u">>], TRUE, Len(d)))))
 \* witness stream: compact bits of the witnesses in the order of the encoded list (first occurrence of each class)
 RECURSIVE WitBits(_, _, _, _)
 WitBits(d, t, w, order) ==
